@@ -176,7 +176,7 @@ def gen_case(rng, arm, tier, k=0):
         elif r < 0.95:
             ops.append(["normalize", rng.randrange(len(mats))])
         else:
-            ops.append([rng.choice(("accuracy", "confusion", "purity")), rng.randrange(len(mats)), rng.randint(0, 3)])
+            ops.append([rng.choice(("accuracy", "confusion", "purity", "per_label")), rng.randrange(len(mats)), rng.randint(0, 3)])
     case["ops"] = ops
     return case
 
@@ -389,11 +389,11 @@ def execute(op, w, scratch, tag):
         return B.splitter.merge(w.mats[k], w.mats[k2], w.labs[k], w.labs[k2])
     if kind == "normalize":
         return B.general.normalize(w.mats[op[1] % len(w.mats)])
-    if kind in ("accuracy", "confusion", "purity"):
+    if kind in ("accuracy", "confusion", "purity", "per_label"):
         _, k, shift = op
         y = w.labs[k % len(w.labs)]
         preds = np.roll(y, shift)
-        fn = {"accuracy": B.general.opf_accuracy, "confusion": B.general.confusion_matrix, "purity": B.general.purity}[kind]
+        fn = {"accuracy": B.general.opf_accuracy, "confusion": B.general.confusion_matrix, "purity": B.general.purity, "per_label": B.general.opf_accuracy_per_label}[kind]
         return fn(y, preds)
     raise ValueError(op)
 
@@ -419,7 +419,7 @@ def touched(op, w):
         return {"mat%d" % (op[2] % len(w.mats)), "mat%d" % (op[3] % len(w.mats))}
     if op[0] == "merge":
         return {"mat%d" % (op[1] % len(w.mats)), "mat%d" % (op[2] % len(w.mats))}
-    if op[0] in ("accuracy", "confusion", "purity"):
+    if op[0] in ("accuracy", "confusion", "purity", "per_label"):
         return {"lab%d" % (op[1] % len(w.mats))}
     return {"mat%d" % (op[1 if op[0] != "precompute" else 2] % len(w.mats))}
 
